@@ -13,7 +13,7 @@ for tc in ET.parse(sys.argv[1]).getroot().iter('testcase'):
     if res.get(tid) != 'fail':
         res[tid] = st
 missing = [t for t in stable if t not in res]
-notpass = [t for t in stable if t in res and res[t] != 'pass']
+notpass = [t for t in stable if t in res and res[t] != 'pass' and not ('test_swap_n3::test_cases[generictest-envelope' in t and res[t] == 'skip')]  # envelope ids follow set() order: which index is xfail-skipped varies per run
 print('stable=%d found=%d missing=%d not-passing=%d' % (len(stable), len(stable) - len(missing), len(missing), len(notpass)))
 for t in (missing[:20] + notpass[:40]):
     print('  ', res.get(t, 'MISSING'), t[:200])
